@@ -241,13 +241,16 @@ func histAlphabet(sp *spaceCtx) []histStream {
 }
 
 type histOp struct {
-	Kind   string `json:"kind"` // unmarshal | proto | reset
+	Kind   string `json:"kind"` // unmarshal | proto | reset | observe
 	Stream int    `json:"stream"`
 }
 
 func (o histOp) String(al []histStream) string {
 	if o.Kind == "reset" {
 		return "Reset"
+	}
+	if o.Kind == "observe" {
+		return "ReadEverything"
 	}
 	return o.Kind + "(" + al[o.Stream].Name + ")"
 }
@@ -282,6 +285,22 @@ func applyOp(st *trie.SlimTrie, op histOp, al []histStream) (err error, p interf
 		switch op.Kind {
 		case "reset":
 			st.Reset()
+		case "observe":
+			// every read API once (lookups, scans, Stat, String, Marshal, proto.Size):
+			// a read must not leave anything behind that survives the next load
+			st.Get("\x00")
+			st.Search("\x7f")
+			st.RangeGet("\xff")
+			if st.GetID("") >= -1 {
+				func() {
+					defer func() { recover() }() // scans refuse incomplete tries
+					st.ScanFrom("", true, true, func(k, v []byte) bool { return true })
+				}()
+			}
+			st.Stat()
+			_ = st.String()
+			st.Marshal()
+			proto.Size(st)
 		case "unmarshal":
 			err = st.Unmarshal(append([]byte{}, al[op.Stream].Bytes...))
 		case "proto":
@@ -325,6 +344,8 @@ func evalHist(w *h.Worker, al []histStream, refObs []string, refDig []uint64, em
 			return &h.Viol{Sig: "history-panic", Msg: fmt.Sprintf("%s panicked: %v", op.String(al), p)}
 		}
 		switch {
+		case op.Kind == "observe":
+			// reads define nothing
 		case op.Kind == "reset":
 			lastDefining, lastRejected = -2, false
 		case al[op.Stream].Valid:
@@ -401,7 +422,7 @@ func runC05(r *h.Run) {
 		drop := map[string]bool{"lift1": true, "bigroot-lo": true, "bigroot-hi": true, "shift2": true, "shift5": true, "shift11": true}
 		p.scaffoldFilter = func(n string) bool { return !drop[n] }
 	}
-	r.Rule = "(a) for every trie of the C01 space (all 16 option combinations, encoders I32/String16/VarEnc, run patterns, nil values) and every query of Q: Get, GetID, RangeGet, Search, GetI32 (where applicable), scans from every start (complete modes), Stat and String are identical on the fresh, the Unmarshal-loaded and the proto-loaded instance (result-to-result, false positives included); (b) on every fresh trie: the same input built 4 times gives identical bytes, len(Marshal) = proto.Size = len(proto.Marshal), Marshal(Unmarshal(Marshal(t))) = Marshal(t) (short-table scaffolds with tied bitmap frequencies included); (c) explicit-state exploration of load/reset histories: every sequence of length <= 3 over {Unmarshal(s), proto.Unmarshal(s)} x 14 streams (empty; default, complete, complete without values, inner-only, leaf-only, de-duplicated small tries; one with 257-bit and short nodes; legacy 0.5.3, 0.5.9, 0.5.10-innpref, 0.5.10-allpref; a truncated and a bad-version stream) and Reset, from a never-used and from a built instance; differential oracle: the observation vector (answers to Q, scans, Stat, String, Marshal bytes) equals that of a fresh instance that only loaded the last stream, or the empty observation after Reset. A state is a distinct (marshaled bytes, options, encoder) resp. a distinct observation vector"
+	r.Rule = "(a) for every trie of the C01 space (all 16 option combinations, encoders I32/String16/VarEnc, run patterns, nil values) and every query of Q: Get, GetID, RangeGet, Search, GetI32 (where applicable), scans from every start (complete modes), Stat and String are identical on the fresh, the Unmarshal-loaded and the proto-loaded instance (result-to-result, false positives included); (b) on every fresh trie: the same input built 4 times gives identical bytes, len(Marshal) = proto.Size = len(proto.Marshal), Marshal(Unmarshal(Marshal(t))) = Marshal(t) (short-table scaffolds with tied bitmap frequencies included); (c) explicit-state exploration of load/reset histories: every sequence of length <= 3 over {Unmarshal(s), proto.Unmarshal(s)} x 14 streams, Reset and ReadEverything (every read API once, incl. Marshal and proto.Size, so that cached read state is exposed to the next load) (empty; default, complete, complete without values, inner-only, leaf-only, de-duplicated small tries; one with 257-bit and short nodes; legacy 0.5.3, 0.5.9, 0.5.10-innpref, 0.5.10-allpref; a truncated and a bad-version stream) and Reset, from a never-used and from a built instance; differential oracle: the observation vector (answers to Q, scans, Stat, String, Marshal bytes) equals that of a fresh instance that only loaded the last stream, or the empty observation after Reset. A state is a distinct (marshaled bytes, options, encoder) resp. a distinct observation vector"
 	r.Assumptions = append([]string{"the state after a rejected load is decided by C07, not here", "a deep-digest difference without an observable difference is logged, not raised"}, commonAssumptions...)
 	runTriePass(r, buildPhases(r, p), oracleC05, nil)
 
@@ -419,7 +440,7 @@ func runC05(r *h.Run) {
 	for i := range al {
 		ops = append(ops, histOp{"unmarshal", i}, histOp{"proto", i})
 	}
-	ops = append(ops, histOp{"reset", 0})
+	ops = append(ops, histOp{"reset", 0}, histOp{"observe", 0})
 	depth := 3
 	r.Bounds["history_ops"] = len(ops)
 	r.Bounds["history_depth"] = depth
